@@ -137,13 +137,13 @@ fn place(rng: &mut Rng, kind: usize, grid: &[f64], x0: f64, xend: f64) -> Vec<f6
 }
 
 pub fn run(ctx: &Ctx) -> (Report, Meta) {
-    let k_exact = 100.0;
+    let k_exact: f64 = 100.0;
     let meta = Meta::new(
         "closed-form problems (linear blocks, logistic, Riccati, Bernoulli, rational, Prothero-Robinson; time-warped and mixed, dim 1..3) x 6 methods x both directions x tolerances; a pilot run reveals the accepted-step grid, then requested times are placed by 8 placement kinds (uniform, exactly on boundaries, boundary +-1e-12/1e-9, several per step with empty steps, duplicates, random, boundary +- 1..12 ulps, only the two ends) x 4 modes (success, step budget, terminal event placed relative to the grid, failing problem with a finite-time singularity). Each case runs t_eval with dense off and on, the twin without t_eval, and the unrestricted run. Non-trivial = case with >= 1 requested time strictly inside a step and >= 1 within 1e-9 of a step boundary (distinct by scenario hash).",
     )
     .assume("the twin run without t_eval has the same step grid: verified per case through the ode-log hash before it is used (else inconclusive)")
     .assume("values at requested times within 1e-11 of a step boundary may come from either adjacent step: compared to rounding, all others bitwise with sol(t) of the dense twin")
-    .thresholds(json!({"exact_solution_factor_K": k_exact, "either_zone_beyond_stop": "8 ulps"}))
+    .thresholds(json!({"exact_solution_factor_K": "max(100, K_m of C01)", "either_zone_beyond_stop": "8 ulps"}))
     .floor("cases_checked", 400)
     .floor("requested_times_checked", 4000)
     .floor("values_compared_bitwise_with_dense_twin", 2000)
@@ -390,7 +390,7 @@ pub fn run(ctx: &Ctx) -> (Report, Meta) {
             if method != Method::RK4 && v.iter().all(|x| x.is_finite()) && mode != 3 {
                 if let Some(ex) = prob.exact(t) {
                     for j in 0..nst {
-                        let bound = k_exact * amp * (tw.naccpt.max(1) as f64) * scale_at(&ex, j);
+                        let bound = k_exact.max(super::c01::k_method(method)) * amp * (tw.naccpt.max(1) as f64) * scale_at(&ex, j);
                         let err = (v[j] - ex[j]).abs();
                         rep.worst(&format!("err_over_naccpt_tol_{}", m), err / (amp * (tw.naccpt.max(1) as f64) * scale_at(&ex, j)));
                         if err > bound {
